@@ -309,13 +309,18 @@ func (p *Pools) GenEntry(r *rand.Rand, op *spb.AFTOperation, kind string) {
 			}
 			g.NextHop = append(g.NextHop, &aftpb.Afts_NextHopGroup_NextHopKey{Index: n, NextHop: nh})
 		}
+		gid := p.pickU(r, p.NHGs)
 		if r.IntN(3) == 0 {
 			g.BackupNextHopGroup = uv(uint64(1 + r.IntN(6)))
+			if r.IntN(4) == 0 {
+				// a group that names itself as its backup (nothing forbids it)
+				g.BackupNextHopGroup = uv(gid)
+			}
 		}
 		if p.Rich && r.IntN(4) == 0 {
 			g.Color = uv(uint64(r.IntN(3)))
 		}
-		op.Entry = &spb.AFTOperation_NextHopGroup{NextHopGroup: &aftpb.Afts_NextHopGroupKey{Id: p.pickU(r, p.NHGs), NextHopGroup: g}}
+		op.Entry = &spb.AFTOperation_NextHopGroup{NextHopGroup: &aftpb.Afts_NextHopGroupKey{Id: gid, NextHopGroup: g}}
 	case "nh":
 		v := narrowNH[r.IntN(len(narrowNH))]
 		if p.Rich {
